@@ -5,7 +5,7 @@
 From Coq Require Import ZArith List Bool NArith.
 Import ListNotations.
 Require Import PV.Core.Obj PV.Core.Val PV.Core.Subst.
-Require Import PV.Proofs.Dedup PV.Proofs.Unite PV.Proofs.UniteLaws PV.Proofs.SubstLaws PV.Proofs.C14Witness.
+Require Import PV.Proofs.Dedup PV.Proofs.Unite PV.Proofs.UniteLaws PV.Proofs.SubstLaws PV.Proofs.SubstElim PV.Proofs.C14Witness.
 
 (* the result of unite_values never nests unions (for any key identification) *)
 Theorem C14_unite_no_nesting : forall E l,
@@ -73,6 +73,15 @@ Print Assumptions C14_assoc_example.
 Theorem C14_subst_id_on_closed : forall n m v, closed v = true -> canonical n v -> subst_f n m v = v.
 Proof. exact subst_id_on_closed. Qed.
 Print Assumptions C14_subst_id_on_closed.
+
+(* substitution replaces every occurrence: after substituting a map with closed range, no mapped
+   type variable occurs in the result (well-shaped values without CallableValue, whose
+   substitution returns the signature itself when nothing changed up to ==) *)
+Theorem C14_subst_eliminates : forall n m tv v,
+  In tv (map fst m) -> (forall k x, In (k, x) m -> closed x = true) -> elim_ok v = true ->
+  occurs tv (subst_f n m v) = false.
+Proof. exact subst_eliminates. Qed.
+Print Assumptions C14_subst_eliminates.
 
 Example C14_subst_closed_example :
   closed w_closed = true /\ canonical 10 w_closed /\
